@@ -942,6 +942,7 @@ func runCase(idx int, m *module, rng *rand.Rand) *caseDesc {
 		err   error
 	}
 	var last *lastLoad
+	var hist []*lastLoad // every load so far that reported no error
 	hasNil := func(rs []*R) string {
 		for _, r := range rs {
 			if r.Why == "nil" || r.Why == "nil-embedded-breaker-rule" {
@@ -1037,6 +1038,43 @@ func runCase(idx int, m *module, rng *rand.Rand) *caseDesc {
 			}
 			applyWhole(nil)
 			last = nil
+		case opk == 9 && len(hist) >= 2 && rng.Intn(3) == 0:
+			// an EARLIER load again, in fresh objects: whatever came in between (a list with invalid rules, a clear, other
+			// resources), it is the latest load now and must be in force and reported
+			h := hist[rng.Intn(len(hist)-1)]
+			st.Op = "ReloadEarlier"
+			st.Res = h.res
+			st.List = descR(h.rs)
+			c.Steps = append(c.Steps, st)
+			tag = hasNil(h.rs)
+			panicked = run.Guard("C13/"+m.name+"/load-panicked"+tag, c, func() {
+				if h.whole {
+					changed, err = m.loadAll(h.rs, true)
+				} else {
+					changed, err = m.loadRes(h.res, h.rs, true)
+				}
+			})
+			if panicked {
+				c.FailAt = i
+				return c
+			}
+			if h.whole {
+				applyWhole(h.rs)
+			} else {
+				var vs []*R
+				for _, r := range h.rs {
+					if r.Valid {
+						vs = append(vs, r)
+					}
+				}
+				if len(vs) == 0 {
+					delete(model, h.res)
+				} else {
+					model[h.res] = vs
+				}
+			}
+			last = &lastLoad{h.whole, h.res, h.rs, err}
+			run.Count("earlier_loads_repeated", 1)
 		case opk == 9 && last != nil && last.err == nil && rng.Intn(2) == 0:
 			// the latest load again with exactly one field of one valid rule changed (same id, fresh objects)
 			var cand []int
@@ -1136,6 +1174,9 @@ func runCase(idx int, m *module, rng *rand.Rand) *caseDesc {
 			}
 			run.Count("identical_reloads", 1)
 		}
+		if last != nil && last.err == nil && (len(hist) == 0 || hist[len(hist)-1] != last) {
+			hist = append(hist, last)
+		}
 		_ = err
 		// getters
 		var wantAll []string
@@ -1212,7 +1253,7 @@ func main() {
 	sx.Quiet()
 	run = vk.Start("C13", "seq")
 	defer run.Finish()
-	run.Rule("case = one module (flow, isolation, hotspot, circuitbreaker, system, outlier) x 4-12 steps of LoadRules / LoadRulesOfResource / ClearRules / ClearRulesOfResource / identical reload with freshly allocated equal rules, lists of 0-4 rules mixing binding valid rules (unique id, probe signature K), inert valid rules, every field-wise invalidity class and nil elements; after each step GetRules / GetRulesOfResource (ids, order) and probe traffic (admissions until first block + triggered rule) vs. the model; distinct by (module, op sequence, validity classes, K values).")
+	run.Rule("case = one module (flow, isolation, hotspot, circuitbreaker, system, outlier) x 4-12 steps of LoadRules / LoadRulesOfResource / ClearRules / ClearRulesOfResource / identical reload with freshly allocated equal rules / one-field edit / an EARLIER load repeated in fresh objects, lists of 0-4 rules mixing binding valid rules (unique id, probe signature K), inert valid rules, every field-wise invalidity class and nil elements; after each step GetRules / GetRulesOfResource (ids, order) and probe traffic (admissions until first block + triggered rule) vs. the model; distinct by (module, op sequence, validity classes, K values).")
 	run.Assume("callers pass freshly allocated rule objects and never mutate them", "per-resource loads only carry rules of that resource", "rules with an unsupported enum value that the module's own validity check accepts are not generated", "outlier rules carry no RecoveryCheckFunc (func values are never DeepEqual)")
 	clk = vclock.New(1900000000000)
 	outlierChain = sentinel.BuildDefaultSlotChain()
